@@ -23,11 +23,14 @@ ASSUMPTIONS = ['fields are requested only after a compute at the current frequen
                'the state digest may be finer than necessary (costs states, never soundness)']
 
 FREQS = [14.0, 21.3, 28.5]
+# thorough depth: 6 completes in about 10 minutes on 16 idle cores (15 operations, 13 models); MCX_C14_DEPTH=7 or 8 goes deeper
+# (about x2.2 states per level)
+DEPTH_T = int(os.environ.get('MCX_C14_DEPTH', '6'))
 OPS = ['Fa', 'Fb', 'Fc', 'C', 'FF1', 'FF2', 'FF3', 'FF4', 'NF1', 'NF2', 'NF3', 'REP', 'CMD', 'LD', 'V']
 
 
 def bounds(tier, seed):
-    return dict(depth=4 if tier == 'quick' else 7, ops=OPS, freqs=FREQS)
+    return dict(depth=4 if tier == 'quick' else DEPTH_T, ops=OPS, freqs=FREQS)
 
 
 # ------------------------------------------------------------------ models
@@ -235,7 +238,7 @@ def same(a, b):
 
 def cases(tier, seed):
     for name in MODELS:
-        yield dict(kind='reach', model=name, depth=4 if tier == 'quick' else 7)
+        yield dict(kind='reach', model=name, depth=4 if tier == 'quick' else DEPTH_T)
     for base in SWEEP_BASES:
         for steps in (1, 2, 3, 4):
             yield dict(kind='sweep', base=base, steps=steps)
